@@ -10,6 +10,12 @@ TRUST = ("rustc 1.95.0 and its diagnostics, the std derives, the hand-written dx
 
 # id -> (technique, level text, design ref, level note)
 CHECKS = {
+    "C03": ("trait-solver bits (probe_impl!) of derive_ex types vs twin types carrying the documented where-clause, evaluated by rustc at run time",
+            "Held on every probe bit of every generated shape of the run; generated impls must type-check whenever the twin does.",
+            "DESIGN.md §4 C03", "rustc's trait solver is the observation channel; the twin's where-clause is the reference model's reading of the doc; " + TRUST),
+    "C17": ("compile pipeline as the monitored execution: rustc verdict (E0277 `..: Eq`) vs the reference rule, with controls; probe bits for generic cases",
+            "Held on every generated case of the run, refuse and accept side.",
+            "DESIGN.md §4 C17", TRUST),
     "C10": ("generated programs: every value formatted with 12 format specs by the derive_ex type and by a std-derived twin; strings compared offline",
             "Held on every (value, format spec) pair of the run; two-transparent-field refusals judged on the in-process expansion.",
             "DESIGN.md §4 C10", "the std derive(Debug) is the reference; " + TRUST),
